@@ -15,6 +15,8 @@ import (
 	"github.com/pion/dtls/v3/internal/zzverif/lib/pbt"
 	"github.com/pion/dtls/v3/internal/zzverif/lib/ref"
 	"github.com/pion/dtls/v3/internal/zzverif/lib/scen"
+	"github.com/pion/dtls/v3/pkg/crypto/hash"
+	"github.com/pion/dtls/v3/pkg/crypto/signature"
 	"github.com/pion/dtls/v3/pkg/protocol"
 	"github.com/pion/dtls/v3/pkg/protocol/alert"
 	"github.com/pion/dtls/v3/pkg/protocol/extension"
@@ -98,6 +100,30 @@ func withGen[T any](c *codec) *codec {
 	return c
 }
 
+// shaped installs a domain-aware value generator (construction instead of rejection).
+func shaped[T any](c *codec, g func(t *rapid.T) *T) *codec {
+	old := c.gen
+	strict := c.domain != nil
+	c.gen = func(t *rapid.T) any {
+		if old != nil && strict && rapid.IntRange(0, 3).Draw(t, "unshaped") == 0 {
+			return old(t)
+		}
+
+		return g(t)
+	}
+	if c.domain == nil {
+		// constructed values are wire-representable: the strong rules apply (own encoding accepted,
+		// round trip preserves the value)
+		c.domain = func(any) bool { return true }
+	}
+
+	return c
+}
+
+func genBytes(t *rapid.T, label string, lo, hi int) []byte {
+	return rapid.SliceOfN(rapid.Byte(), lo, hi).Draw(t, label)
+}
+
 func delim(c *codec) *codec { c.delimited = true; return c }
 
 func dom[T any](c *codec, f func(*T) bool) *codec {
@@ -135,15 +161,36 @@ func cidHeader(n int) func(*recordlayer.Header) {
 
 func init() {
 	// record layer
-	reg(dom(withGen[recordlayer.Header](msg[recordlayer.Header]("record.Header", nil)), func(h *recordlayer.Header) bool {
-		okVer := h.Version == protocol.Version1_0 || h.Version == protocol.Version1_2 || h.Version == protocol.Version1_3
+	reg(dom(shaped(withGen[recordlayer.Header](msg[recordlayer.Header]("record.Header", nil)), func(t *rapid.T) *recordlayer.Header {
+		return &recordlayer.Header{
+			ContentType:    protocol.ContentType(rapid.SampledFrom([]int{20, 21, 22, 23, 26, 27}).Draw(t, "ct")), //nolint:gosec
+			Version:        rapid.SampledFrom([]protocol.Version{protocol.Version1_0, protocol.Version1_2}).Draw(t, "ver"),
+			Epoch:          rapid.Uint16().Draw(t, "epoch"),
+			SequenceNumber: rapid.OneOf(rapid.Uint64Range(0, 1<<48-1), rapid.SampledFrom([]uint64{0, 1, 1<<48 - 1, 1<<48 - 2, 1 << 32, 1<<32 - 1})).Draw(t, "seq"),
+			ContentLen:     rapid.Uint16().Draw(t, "len"),
+		}
+	}), func(h *recordlayer.Header) bool {
+		// the legacy record header only ever carries {254,255} or {254,253} (RFC 9147 4.1: legacy_record_version)
+		okVer := h.Version == protocol.Version1_0 || h.Version == protocol.Version1_2
 		okType := h.ContentType >= 20 && h.ContentType <= 27 && h.ContentType != 25 && h.ContentType != 24
 
 		return okVer && okType && h.SequenceNumber < 1<<48 && len(h.ConnectionID) == 0
 	}))
 	reg(msg[recordlayer.Header]("record.Header/cid4", cidHeader(4)))
 	reg(msg[recordlayer.Header]("record.Header/cid8", cidHeader(8)))
-	reg(dom(withGen[recordlayer.UnifiedHeader](msg[recordlayer.UnifiedHeader]("record.UnifiedHeader", nil)), func(u *recordlayer.UnifiedHeader) bool {
+	reg(dom(shaped(withGen[recordlayer.UnifiedHeader](msg[recordlayer.UnifiedHeader]("record.UnifiedHeader", nil)), func(t *rapid.T) *recordlayer.UnifiedHeader {
+		u := &recordlayer.UnifiedHeader{EpochLow: uint8(rapid.IntRange(0, 3).Draw(t, "e")), SeqBit: rapid.Bool().Draw(t, "s"), LengthBit: rapid.Bool().Draw(t, "l")} //nolint:gosec
+		if u.SeqBit {
+			u.SequenceNumber = rapid.Uint16().Draw(t, "seq16")
+		} else {
+			u.SequenceNumber = uint16(rapid.IntRange(0, 255).Draw(t, "seq8")) //nolint:gosec
+		}
+		if u.LengthBit {
+			u.Length = rapid.Uint16().Draw(t, "len")
+		}
+
+		return u
+	}), func(u *recordlayer.UnifiedHeader) bool {
 		return u.EpochLow < 4 && (u.SeqBit || u.SequenceNumber < 256) && (u.LengthBit || u.Length == 0) && len(u.ConnectionID) == 0
 	}))
 	reg(msg[recordlayer.UnifiedHeader]("record.UnifiedHeader/cid4", func(u *recordlayer.UnifiedHeader) { u.ConnectionID = make([]byte, 4) }))
@@ -179,12 +226,24 @@ func init() {
 	reg(msg[handshake.MessageCertificate13]("hs.Certificate13", nil))
 	reg(withGen[handshake.MessageCertificateRequest](msg[handshake.MessageCertificateRequest]("hs.CertificateRequest", nil)))
 	reg(msg[handshake.MessageCertificateRequest13]("hs.CertificateRequest13", nil))
-	reg(withGen[handshake.MessageCertificateVerify](msg[handshake.MessageCertificateVerify]("hs.CertificateVerify", nil)))
+	reg(shaped(withGen[handshake.MessageCertificateVerify](msg[handshake.MessageCertificateVerify]("hs.CertificateVerify", nil)), func(t *rapid.T) *handshake.MessageCertificateVerify {
+		sc := rapid.SampledFrom([]uint16{0x0403, 0x0503, 0x0603, 0x0807, 0x0401, 0x0501, 0x0601}).Draw(t, "scheme")
+
+		return &handshake.MessageCertificateVerify{HashAlgorithm: hash.Algorithm(sc >> 8), SignatureAlgorithm: signature.Algorithm(sc & 0xff), Signature: genBytes(t, "sig", 0, 140)}
+	}))
 	reg(dom(withGen[handshake.MessageFinished](msg[handshake.MessageFinished]("hs.Finished", nil)), func(*handshake.MessageFinished) bool { return true }))
 	reg(msg[handshake.MessageEncryptedExtensions]("hs.EncryptedExtensions", nil))
 	reg(msg[handshake.MessageNewSessionTicket]("hs.NewSessionTicket", nil))
 	reg(withGen[handshake.MessageKeyUpdate](msg[handshake.MessageKeyUpdate]("hs.KeyUpdate", nil)))
-	reg(withGen[handshake.MessageNewConnectionID](msg[handshake.MessageNewConnectionID]("hs.NewConnectionID", nil)))
+	reg(shaped(withGen[handshake.MessageNewConnectionID](msg[handshake.MessageNewConnectionID]("hs.NewConnectionID", nil)), func(t *rapid.T) *handshake.MessageNewConnectionID {
+		m := &handshake.MessageNewConnectionID{Usage: handshake.ConnectionIDUsage(rapid.IntRange(0, 1).Draw(t, "usage"))} //nolint:gosec
+		n := rapid.IntRange(0, 5).Draw(t, "n")
+		for i := 0; i < n; i++ {
+			m.CIDs = append(m.CIDs, genBytes(t, "cid", 0, 20))
+		}
+
+		return m
+	}))
 	reg(withGen[handshake.MessageRequestConnectionID](msg[handshake.MessageRequestConnectionID]("hs.RequestConnectionID", nil)))
 	reg(msg[handshake.MessageServerHelloDone]("hs.ServerHelloDone", nil))
 	// extensions (payload codecs)
@@ -202,7 +261,16 @@ func init() {
 	regExt(withGen[ext12.RenegotiationInfo](ext[ext12.RenegotiationInfo]("ext.RenegotiationInfo")), 0xff01)
 	regExt(withGen[ext12.SupportedPointFormats](ext[ext12.SupportedPointFormats]("ext.SupportedPointFormats")), 11)
 	regExt(ext[ext12.ExtendedMasterSecret]("ext.ExtendedMasterSecret"), 23)
-	regExt(withGen[ext13.OfferedPSKs](ext[ext13.OfferedPSKs]("ext.OfferedPSKs")), 41)
+	regExt(shaped(withGen[ext13.OfferedPSKs](ext[ext13.OfferedPSKs]("ext.OfferedPSKs")), func(t *rapid.T) *ext13.OfferedPSKs {
+		o := &ext13.OfferedPSKs{}
+		n := rapid.IntRange(1, 4).Draw(t, "n")
+		for i := 0; i < n; i++ {
+			o.Identities = append(o.Identities, ext13.PSKIdentity{Identity: genBytes(t, "id", 1, 24), ObfuscatedTicketAge: rapid.Uint32().Draw(t, "age")})
+			o.Binders = append(o.Binders, ext13.PSKBinder(genBytes(t, "binder", 32, 64)))
+		}
+
+		return o
+	}), 41)
 	regExt(withGen[ext13.SelectedPSK](ext[ext13.SelectedPSK]("ext.SelectedPSK")), 41)
 	regExt(withGen[ext13.ClientKeyShare](ext[ext13.ClientKeyShare]("ext.ClientKeyShare")), 51)
 	regExt(withGen[ext13.ServerKeyShare](ext[ext13.ServerKeyShare]("ext.ServerKeyShare")), 51)
@@ -212,7 +280,20 @@ func init() {
 	regExt(ext[ext13.PostHandshakeAuth]("ext.PostHandshakeAuth"), 49)
 	regExt(withGen[ext13.CertificateAuthorities](ext[ext13.CertificateAuthorities]("ext.CertificateAuthorities")), 47)
 	regExt(withGen[ext13.PSKKeyExchangeModes](ext[ext13.PSKKeyExchangeModes]("ext.PSKKeyExchangeModes")), 45)
-	regExt(withGen[ext13.OIDFilters](ext[ext13.OIDFilters]("ext.OIDFilters")), 48)
+	regExt(shaped(withGen[ext13.OIDFilters](ext[ext13.OIDFilters]("ext.OIDFilters")), func(t *rapid.T) *ext13.OIDFilters {
+		o := &ext13.OIDFilters{}
+		n := rapid.IntRange(0, 4).Draw(t, "n")
+		for i := 0; i < n; i++ {
+			oid := append([]byte{byte(0x50 + i)}, genBytes(t, "oid", 0, 8)...) // distinct first byte: no duplicate OIDs
+			var vals []byte
+			if rapid.IntRange(0, 2).Draw(t, "empty") != 0 {
+				vals = genBytes(t, "vals", 1, 12)
+			}
+			o.Filters = append(o.Filters, ext13.OIDFilter{OID: oid, Values: vals})
+		}
+
+		return o
+	}), 48)
 	regExt(ext[ext13.EarlyData]("ext.EarlyData"), 42)
 	regExt(withGen[ext13.MaxEarlyData](ext[ext13.MaxEarlyData]("ext.MaxEarlyData")), 42)
 	regExt(dom(withGen[ext13.Cookie](ext[ext13.Cookie]("ext.Cookie")), func(*ext13.Cookie) bool { return true }), 44)
